@@ -2,4 +2,5 @@ pub mod canon;
 pub mod ctx;
 pub mod rng;
 pub mod session;
+pub mod util;
 pub mod watchdog;
